@@ -569,3 +569,179 @@ func headerAgreement(P *Prog) (sides []*headerSide, writerLayouts []string, wpos
 	sort.Slice(sides, func(i, j int) bool { return sides[i].readerPos < sides[j].readerPos })
 	return sides, writerLayouts, wpos, true
 }
+
+// ruleSentinelComplete: the chunk reader reports a line that belongs to the next
+// file of a git patch through a sentinel error which its caller tolerates
+// (errors.Is(err, sentinel) → carry on with the next file).  On every return
+// that carries that sentinel the chunk read so far must already have been
+// recorded, exactly as on the successful return; otherwise the last hunk of
+// every file but the last silently disappears.
+func ruleSentinelComplete(c *Ctx) {
+	P := c.P
+	c.rule("R-SENTINEL-COMPLETE", 1, "a return carrying the tolerated sentinel error is preceded on all paths by the store that records the chunk")
+	chunksF := P.Field("mdiff", "diffReader", "chunks")
+	if chunksF == nil {
+		for _, f := range P.FieldsDeep("mdiff", "diffReader") {
+			if sl, ok := f.Type().Underlying().(*types.Slice); ok {
+				if pt, ok := sl.Elem().Underlying().(*types.Pointer); ok && isNamedOrigin(pt.Elem(), P.Named("mdiff", "Chunk")) {
+					chunksF = f
+				}
+			}
+		}
+	}
+	if chunksF == nil {
+		c.undecided("ANCHOR", "mdiff.diffReader chunk list", 0, "not found")
+		return
+	}
+	// sentinels: package-level error variables tested with errors.Is somewhere in the package
+	sentinels := map[*ssa.Global]bool{}
+	for _, fn := range P.PkgFuncs("mdiff") {
+		allInstrs(fn, func(in ssa.Instruction) {
+			call, ok := in.(*ssa.Call)
+			if !ok {
+				return
+			}
+			if cal := staticCallee(&call.Call); cal == nil || origin(cal).Pkg == nil || origin(cal).Pkg.Pkg.Path() != "errors" || origin(cal).Name() != "Is" || len(call.Call.Args) != 2 {
+				return
+			}
+			if ld, ok := call.Call.Args[1].(*ssa.UnOp); ok {
+				if g, ok := ld.X.(*ssa.Global); ok {
+					sentinels[g] = true
+				}
+			}
+		})
+	}
+	n := 0
+	for _, fn := range P.PkgFuncs("mdiff") {
+		fn := fn
+		// does fn record chunks at all?
+		records := func(in ssa.Instruction) bool {
+			st, ok := in.(*ssa.Store)
+			if !ok {
+				return false
+			}
+			fa, ok := st.Addr.(*ssa.FieldAddr)
+			if !ok {
+				return false
+			}
+			_, f := fieldVarOf(fa)
+			return sameField(f, chunksF)
+		}
+		has := false
+		allInstrs(fn, func(in ssa.Instruction) {
+			if records(in) {
+				has = true
+			}
+		})
+		carries := func(v ssa.Value) bool {
+			seen := map[ssa.Value]bool{}
+			found := false
+			var walk func(v ssa.Value, d int)
+			walk = func(v ssa.Value, d int) {
+				if v == nil || seen[v] || d > 8 || found {
+					return
+				}
+				seen[v] = true
+				switch x := v.(type) {
+				case *ssa.UnOp:
+					if g, ok := x.X.(*ssa.Global); ok && sentinels[g] {
+						found = true
+						return
+					}
+					walk(x.X, d+1)
+				case *ssa.Call:
+					for _, a := range x.Call.Args {
+						walk(a, d+1)
+					}
+				case *ssa.MakeInterface:
+					walk(x.X, d+1)
+				case *ssa.ChangeInterface:
+					walk(x.X, d+1)
+				case *ssa.Slice:
+					walk(x.X, d+1)
+				case *ssa.Alloc:
+					for _, r := range referrersOf(x) {
+						if ia, ok := r.(*ssa.IndexAddr); ok {
+							for _, r2 := range referrersOf(ia) {
+								if st, ok := r2.(*ssa.Store); ok && st.Addr == ssa.Value(ia) {
+									walk(st.Val, d+1)
+								}
+							}
+						}
+					}
+				case *ssa.Phi:
+					for _, e := range x.Edges {
+						walk(e, d+1)
+					}
+				}
+			}
+			walk(v, 0)
+			return found
+		}
+		allInstrs(fn, func(in ssa.Instruction) {
+			ret, ok := in.(*ssa.Return)
+			if !ok {
+				return
+			}
+			for _, r := range ret.Results {
+				if !carries(r) {
+					continue
+				}
+				n++
+				c.sawFn(fnName(fn))
+				key := fmt.Sprintf("%s:sentinel return #%d", fnName(fn), n)
+				if !has {
+					c.ok("R-SENTINEL-COMPLETE", key, ret.Pos(), "the function records no chunks")
+					continue
+				}
+				missing, wit := reachesWithout(P, firstInstr(fn), true, func(in2 ssa.Instruction) bool { return in2 == ssa.Instruction(ret) }, records)
+				c.judge(!missing, "R-SENTINEL-COMPLETE", key, ret.Pos(), "the chunk is recorded before the tolerated error is returned", "this return reports the sentinel its caller treats as 'the next file begins' without having recorded the chunk read so far ("+wit+"): that hunk is dropped from the patch")
+			}
+		})
+	}
+}
+
+// ruleTimeExact: the timestamp the header parser hands back is the value
+// time.Parse produced: no conversion of zone or precision is applied to it
+// (UTC, Local, In, Truncate, Round, Add), so a header read and written again
+// reproduces its zone offset.
+func ruleTimeExact(c *Ctx) {
+	P := c.P
+	c.rule("R-TIME-EXACT", 1, "the parsed header timestamp is returned as time.Parse produced it (no UTC/Local/In/Truncate/Round/Add)")
+	n := 0
+	for _, fn := range P.PkgFuncs("mdiff") {
+		fn := fn
+		parses := false
+		allInstrs(fn, func(in ssa.Instruction) {
+			if call, ok := in.(*ssa.Call); ok {
+				if cal := staticCallee(&call.Call); cal != nil && origin(cal).Pkg != nil && origin(cal).Pkg.Pkg.Path() == "time" && (origin(cal).Name() == "Parse" || origin(cal).Name() == "ParseInLocation") {
+					parses = true
+				}
+			}
+		})
+		if !parses {
+			continue
+		}
+		n++
+		c.sawFn(fnName(fn))
+		var probs []string
+		allInstrs(fn, func(in ssa.Instruction) {
+			call, ok := in.(*ssa.Call)
+			if !ok {
+				return
+			}
+			cal := staticCallee(&call.Call)
+			if cal == nil || origin(cal).Pkg == nil || origin(cal).Pkg.Pkg.Path() != "time" || origin(cal).Signature.Recv() == nil {
+				return
+			}
+			switch origin(cal).Name() {
+			case "UTC", "Local", "In", "Truncate", "Round", "Add", "AddDate":
+				probs = append(probs, fmt.Sprintf("Time.%s at %s", origin(cal).Name(), P.pos(call.Pos())))
+			}
+		})
+		c.judge(len(probs) == 0, "R-TIME-EXACT", fnName(fn)+":parsed time unchanged", fn.Pos(), "the result of time.Parse is handed on as it is", fmt.Sprintf("the parsed timestamp is converted before it is returned (%v): the zone offset or precision written in the header is lost, so reading and writing the header again changes it", probs))
+	}
+	if n == 0 {
+		c.undecided("R-TIME-EXACT", "mdiff:time parser", 0, "no function of package mdiff calls time.Parse")
+	}
+}
